@@ -45,5 +45,36 @@ def target(x, y):
     return 0
 
 
+# functions that are defined, used, and then defined again under the same name with the parameters re-ordered / renamed
+# (an edited notebook cell): the later definition is the function
+@memento_function(version="1")
+def s6(value, factor):
+    return 6
+
+
+s6.fn_reference().with_args(1, 2)
+
+
+@memento_function(version="2")
+def s6(factor, value, rev):        # noqa: F811
+    REC.calls.append(("s6", dict(factor=factor, value=value, rev=rev)))
+    return 6
+
+
+@memento_function(version="1")
+def s7(path, *, k):
+    return 7
+
+
+s7.fn_reference().with_args("p", k=1)
+
+
+@memento_function(version="2")
+def s7(uri, mode, *, k, m):        # noqa: F811
+    REC.calls.append(("s7", dict(uri=uri, mode=mode, k=k, m=m)))
+    return 7
+
+
 SIGS = {"s1": (s1, ["a"], []), "s2": (s2, ["a", "b"], []), "s3": (s3, ["a", "b", "c"], []),
-        "s4": (s4, ["a", "b"], ["k", "m"]), "s5": (s5, ["alpha", "beta", "gamma", "delta", "eps"], [])}
+        "s4": (s4, ["a", "b"], ["k", "m"]), "s5": (s5, ["alpha", "beta", "gamma", "delta", "eps"], []),
+        "s6": (s6, ["factor", "value", "rev"], []), "s7": (s7, ["uri", "mode"], ["k", "m"])}
